@@ -60,6 +60,9 @@ def work(job):
                 part.count('%s.enc.%s' % (codec, r[0] if r[0] == 'ok' else r[1].split(':')[0]))
                 problem = None
                 detail = {}
+                if r[0] != 'ok' and r[1] == 'Timeout':
+                    part.count(codec + '.machinery-timeout')
+                    continue
                 if r[0] != 'ok':
                     problem = 'encode of a checked value failed: %s %s' % (r[1], r[2])
                 else:
@@ -141,11 +144,12 @@ def run(ctx):
         g = Gen(rng, opts if i % 4 else opts_ext)
         types = [('A', g.type()), ('B', g.type())]
         plain = module_text(types)
-        rc = RefCtx(rng, p_type=0.35, p_value=0.3, p_con_on_ref=0.3)
+        # member-level `Ref (SIZE(..))` only for OCTET STRING: the codecs ignore it for other kinds (finding C11/C05 size-on-reference)
+        rc = RefCtx(rng, p_type=0.35, p_value=0.3, p_con_on_ref=0.3, con_kinds=('octs',))
         reorg = module_text(types, ctx=rc)
         variants = [('plain', plain, CODECS), ('reorganised', reorg, CODECS)]
         if not any(k in plain for k in ('CHOICE', 'SET')):
-            rc2 = RefCtx(rng, p_type=0.5, p_value=0.2, p_con_on_ref=0.4)
+            rc2 = RefCtx(rng, p_type=0.5, p_value=0.2, p_con_on_ref=0.4, con_kinds=('octs',))
             variants.append(('reorganised-untagged', module_text(types, ctx=rc2, tags=''), TAGFREE))
         for tname, t in types:
             features(t, feat)
